@@ -59,6 +59,9 @@ static long read_hunk_header(FILE *in)
 
   for (n = 0; n < table_length; n++)
   {
+    // table_length is not trusted: stop where the file ends.
+    if (feof(in)) { break; }
+
     //uint32_t size = read_int32(in);
     read_int32(in);
 
@@ -116,6 +119,13 @@ int read_amiga(const char *filename, Memory *memory)
   {
     uint32_t hunk_type = read_int32(in);
 
+    // No HUNK_CODE before the end of the file.
+    if (feof(in))
+    {
+      fclose(in);
+      return -1;
+    }
+
     long marker = ftell(in);
 
     if (table_offset != 0)
@@ -135,7 +145,9 @@ int read_amiga(const char *filename, Memory *memory)
         running = 0;
         break;
       default:
-        if (length == 0)
+        // A negative length would seek backwards (and read the same hunk
+        // again for ever).
+        if (length <= 0)
         {
           fclose(in);
           return -1;
